@@ -81,7 +81,9 @@ def step (useSpec : Bool) (F : Facts) (st : St) (line : String) : St × String :
       let p ← parsePred (fields p)
       let o ← parseObj (fields o)
       let tr : Triple := ⟨s, p, o⟩
-      pure (id, tr.view false id (← unhexBytes pstr) (← unhexBytes str) (← unhexBytes sstr) (← unhexBytes ostr))
+      let (a, b, c, d) := (← unhexBytes pstr, ← unhexBytes str, ← unhexBytes sstr, ← unhexBytes ostr)
+      -- the UUID must be defined in both modes; the spec identifies triples by value, not by pre-image
+      pure (id, if useSpec then (tr.view false id a b c d).map (fun _ => tr.viewSpec id a b c d) else tr.view false id a b c d)
     match r with
     | some (id, tv) => ({ st with uni := (id, tv) :: st.uni }, if tv.isSome then "T ok" else "T panic")
     | none => (st, "bad-op")
@@ -97,11 +99,13 @@ def step (useSpec : Bool) (F : Facts) (st : St) (line : String) : St × String :
       | "exist", [n, t] => do pure (.exist (← unhexBytes n) (← st.tv (← t.toNat?)), none)
       | "look", [n, m, s, p, pstr, o, lo] => do
         let m ← parseMethod m
-        let sN : Bytes ← if s = "-" then some [] else (parseNode (fields s)).map preNode
+        let sN : Bytes ← if s = "-" then some [] else (parseNode (fields s)).map (if useSpec then idNode else preNode)
         let pq : Option PQ ← if p = "-" then some none else do
           let pr ← parsePred (fields p)
           pure (some { pid := pr.id, pnano := pr.anchor.map (·.nanos), pstr := (← unhexBytes pstr) })
-        let oB : Bytes ← if o = "-" then some [] else do preObj false (← parseObj (fields o))
+        let oB : Bytes ← if o = "-" then some [] else do
+          let ob ← parseObj (fields o)
+          if useSpec then pure (idObj ob) else preObj false ob
         pure (.lookup (← unhexBytes n) m { s := sN, p := pq, o := oB } (← parseLo lo), some m)
       | _, _ => none
     match op? with
